@@ -583,7 +583,7 @@ func C04(run *Run) {
 	r := rand.New(rand.NewSource(run.Seed))
 	v := NewVariants()
 	defer v.Close()
-	nCases := run.Pick(80, 1500)
+	nCases := run.Pick(80, 800) // the whole trace is held in memory until TLC has judged it: 1500 cases did not fit for every seed
 	rec := &Recorder{}
 	loEngines := []string{"classic", "weighted", "pipeline"}
 	skippedInvalid := 0
@@ -642,7 +642,7 @@ func C04(run *Run) {
 			if mg != nil && v1def != nil {
 				for _, eng := range []string{"v2:default", "v2:weight2", "v2:recursive", "server:v2"} {
 					if (eng == "v2:weight2" || eng == "v2:recursive") && !IsPlainSubj(q.U) {
-						continue // see C03: forcing these strategies for userset / wildcard subjects can exhaust memory
+						continue // object subjects only on the forced non-default v2 strategies here (C03 covers the others): keeps the trace within memory
 					}
 					ev := &V2Ev{CheckEv: CheckEv{Eng: eng, O: q.O, R: q.R, U: q.U, Ctx: q.Ctx, Ctxt: ct}}
 					if eng == "server:v2" {
